@@ -86,6 +86,29 @@ def run(ctx):
                                   script=scripts[e.get("script", 0)], event={k: e[k] for k in e if k not in ("expected", "decoded")}))
             violations.append(dict(key=tg, replay=rp, what="script %s" % e.get("script")))
     violations += fam_e2e.judge_c11(ctx, e2e_events, binp)
+    # ---- beyond the listed properties: how a rewritten config.toml takes effect (ConfigWatch.tla); reported as a NOTE
+    cw = dict(design=None, rewrites=0, accepted=None, note=None)
+    try:
+        d = ctx.tlc("cfgwatch_design", "ConfigWatch",
+                    mkcfg(spec="Spec", constants=dict(RVals={1, 2, 3}, MVals={1, 2}, MaxWrites=3 if tier == "quick" else 4),
+                          invariants=["NeverStale"], properties=["ExitOnlyWhenRelevant", "TakesEffect"], deadlock=False), timeout=900, heap="4g")
+        cw["design"] = dict(ok=d["ok"], distinct=d.get("distinct"))
+        ctrace, cnote = fam_e2e.cfgwatch_runs(ctx, binp)
+        cw["note"] = cnote
+        if ctrace is not None:
+            tp = ctx.path("run", "cfgwatch.ndjson")
+            vlib.write_ndjson(tp, ctrace)
+            r = ctx.tlc("cfgwatch_trace", "ConfigWatchTrace",
+                        mkcfg(init="TInit", next_="TNext", post="Accepted", constants=dict(RVals={0, 1, 2, 3}, MVals={0, 1, 2}, MaxWrites=100), deadlock=False),
+                        workers=1, files=[(tp, "trace.ndjson")], timeout=600, heap="2g", expect_ok=False)
+            cw["rewrites"] = sum(1 for e in ctrace if e["ev"] == "cw-write")
+            cw["accepted"] = r.get("distinct", 0) == len(ctrace) + 1
+            if not cw["accepted"] or not d["ok"]:
+                print("NOTE: config-reload behaviour differs from ConfigWatch.tla (not one of the listed properties): trace %s, design %s"
+                      % ("accepted" if cw["accepted"] else "rejected after %d events" % (r.get("distinct", 1) - 1), d["ok"]))
+                ctx.notes.append("ConfigWatch: trace accepted=%s design ok=%s" % (cw["accepted"], d["ok"]))
+    except (vlib.Infra, fam_e2e.DaemonCrash, fam_e2e.DaemonExit) as e:
+        cw["note"] = "config-watch runs skipped: %s" % str(e)[:200]
     files = [e for e in events if e["ev"] in ("file", "tfile")]
     frames = sum(len(e["decoded"]["frames"]) for e in files)
     coverage = dict(states=max(1, e2e_design.get("distinct", 0)), transitions=max(1, e2e_design.get("generated", 0)),
@@ -93,7 +116,7 @@ def run(ctx):
                     samples=[dict(script={k: scripts[0][k] for k in scripts[0] if k != "recordings"},
                                   decoded_header={k: files[0]["decoded"][k] for k in files[0]["decoded"] if k != "frames"})] if files else [{}],
                     files_decoded=len(files), files_through_throttle=sum(1 for e in events if e["ev"] == "tfile"),
-                    frames_compared=frames, e2e=e2e_stats,
+                    frames_compared=frames, e2e=e2e_stats, config_reload_beyond_listed_properties=cw,
                     evaluations=len(scripts) + e2e_stats.get("runs", 0),
                     distinct_nontrivial=len({json.dumps(s, sort_keys=True) for s in scripts}) + e2e_stats.get("runs", 0),
                     rule="generated device/camera/location/motion descriptions x pixel generators (full range, 0, 65535, "
